@@ -1,7 +1,7 @@
 (* C02 — property theorems only. Source = C02.Src, regenerated from /repo on this run. *)
 From Coq Require Import Reals ZArith String List Bool Lra.
 Require Import Py.PyAst Py.PyVal Py.PySem Py.XLemmas.
-Require Import C02.Src C02.Model.
+Require Import C02.Src C02.Model C02.Edge.
 Import ListNotations.
 Open Scope string_scope.
 Open Scope R_scope.
@@ -97,3 +97,17 @@ Theorem C02_mag_singular : forall (m2c : R -> R -> R) a0 a1 c00 c01 c10 c11 mu0 
 Proof. exact mag_singular_is_neginf. Qed.
 Print Assumptions C02_distance_floor.
 (* "does not raise" for the real numpy/scipy/astropy stack and float overflow are runtime facts: oracle only (partial) *)
+
+(* the prior box of an interpolated anisotropy parameter may be the WHOLE interpolation range: a population mean anywhere in the CLOSED
+   range - the edges included - is accepted (no ValueError), handed on unchanged, with no variate consumed *)
+Theorem C02_mean_on_range_edge_accepted : forall amin amax bmin bmax a b sa sb rg cu,
+  amin <= a <= amax -> bmin <= b <= bmax ->
+  yields G0 100 (CFun src_AnisotropyDistribution_draw_anisotropy) None [aniso_obj "GOM" amin amax bmin bmax; Edge.num a; Edge.num sa; Edge.num b; Edge.num sb] [] rg cu
+    (VDict [(VStr "a_ani", Edge.num a); (VStr "beta_inf", Edge.num b)]) cu [] /\
+  (forall model, model = "OM" \/ model = "const" ->
+   yields G0 100 (CFun src_AnisotropyDistribution_draw_anisotropy) None [aniso_obj model amin amax bmin bmax; Edge.num a; Edge.num sa; VNone; VInt 0] [] rg cu
+    (VDict [(VStr "a_ani", Edge.num a)]) cu []).
+Proof. intros; split; [apply mean_in_closed_range_accepted_gom; assumption | intros; apply mean_in_closed_range_accepted_om; assumption]. Qed.
+Print Assumptions C02_mean_on_range_edge_accepted.
+Example C02_edge_nonvacuous : (1/2 <= 1/2 <= 5) /\ (0 <= 1 <= 1).
+Proof. lra. Qed.
